@@ -361,7 +361,7 @@ def plan_c10_fd(ctx):
         nv = rng.randint(2, 3)
         vs = list(range(1, nv + 1))
         lo, hi = rng.choice([(1, 3), (0, 2), (-2, 2)])
-        withdom = rng.random() < 0.7
+        withdom = True   # every FD operand needs a domain before labelling (well-formedness)
         prefix = [["dom", ["list", [["var", v] for v in vs]], ["itv", lo, hi]]] if withdom else []
         prefix += [rng.choice([["distinctfd", ["list", [["var", v] for v in vs]]],
                                ["distinctfd", ["list", [["var", vs[0]], ["num", lo], ["var", vs[1]]]]],
